@@ -107,3 +107,9 @@ package req
 //@   ensures !cl ==> cast("*context", result0).sendExpire == s.defCtx.sendExpire
 //@   ensures !cl ==> cast("*context", result0).receiveExpire == s.defCtx.receiveExpire
 //@   ensures !cl ==> cast("*context", result0).failNoPeers == s.defCtx.failNoPeers
+//@
+//@ func (*context).RecvMsg
+//@   before call:Broadcast#1 assert at("loop1:head", c.reqID) != id ==> c.reqID == at("loop1:head", c.reqID) && c.repMsg == at("loop1:head", c.repMsg)
+//@   before call:Broadcast#1 assert at("loop1:head", c.reqID) == id ==> c.reqID == 0 && c.repMsg == nil && m == at("loop1:head", c.repMsg)
+//@   before call:Broadcast#1 assert at("loop1:head", c.reqID) != id ==> m == nil
+//@   before call:Broadcast#1 assert !c.receiveWait
